@@ -47,7 +47,7 @@ ASSUMPTIONS = [
     "relative input/output paths are generated only in script mode, where CMake's cwd and the child's cwd coincide",
     "the find_package(cminx) packaging path (cminx-config.cmake.in + PyInstaller) is not covered",
 ]
-PROBES = ["path_with_colon", "256_failing_files", "stub_slow_31s", "same_call_in_a_second_process", "two_calls_one_process", "extra_repeated_token", "stub_ok", "stub_exit_nonzero", "stub_killed", "stub_stderr_exit0", "stub_missing", "stub_noexec", "real_peer",
+PROBES = ["path_with_colon", "256_failing_files", "same_call_in_a_second_process", "two_calls_one_process", "extra_repeated_token", "stub_ok", "stub_exit_nonzero", "stub_killed", "stub_stderr_exit0", "stub_missing", "stub_noexec", "real_peer",
           "real_peer_failing_input", "driver_project", "driver_script", "input_dir", "input_file", "input_missing",
           "extra_with_space", "extra_with_special", "extra_flag_value", "relative_paths"]
 
